@@ -357,6 +357,7 @@ func (V *Verifier) verifyFuncMode(fi *FuncInfo, fct *FuncContract, ceUnroll int)
 	_ = names
 	isInit := fi.Decl.Name.Name == "init" && fi.Decl.Recv == nil
 	bodyPos := fi.Decl.Body.Lbrace + 1
+	fc.bodyPos = bodyPos
 	// global invariants hold on entry (except in init, which establishes them)
 	pc := V.contractsByName[fi.Pkg.Name]
 	if !isInit && pc != nil {
